@@ -163,14 +163,15 @@ example : regenVal ((buildExpr flatFc flatE flatSt).2.pop ++ [Flat.Row.brk 0]) 9
 
 /-- BODY level, for the sub-subset `coreB`: statement lists (any length) of return (with / without a `coreE` value),
     assignment to a variable (first assignment declares the transient) or to an attribute with a `coreE` right-hand
-    side, break, continue, control stop, create with / without variable, select any|many from instances, delete,
+    side, break, continue, control stop, create with / without variable, select any|many from instances (with / without a `coreE` where clause over
+    `selected`, accepted in the O_OBJ scope, the variable declared after it), delete,
     relate / unrelate (+ using), and `while` loops, `for each` loops (loop variable visible or declared by the loop) and
     `if` statements WITHOUT elif / else over such lists (nested to any depth: a new ACT_BLK per nested list, R608 / R605 / R607, its own R602 / R661 chain, an empty body included; for the `if`,
     R682 / R683 navigate to no clause), with variable / instance names other than `self`: reading the population
     `prebuildFlat` builds back with `regenFlat` (outer block R666, R602 first-statement filter, R603 subtype dispatch,
     R661 successor chain to its end, variables through the symbol table) prints `genTokens`.
     `flatOk`: the builder never failed (the flag is never set back: `okAll_of_flatOk`).
-    MISSING for the full `regen_of_prebuild`: select from … where, elif / else clauses
+    MISSING for the full `regen_of_prebuild`: elif / else clauses
     (R658 / R606, R682 / R683), `self` as an instance name. -/
 theorem regen_of_prebuild_partial (fc : FCtx) (a : Block) (hc : coreB a = true) (hok : flatOk fc a = true) :
     regenFlat (prebuildFlat fc a) = genTokens a :=
@@ -247,6 +248,17 @@ def coreBody6 : Block :=
 
 example : regenFlat (prebuildFlat flatFc coreBody6) = genTokens coreBody6 :=
   regen_of_prebuild_partial flatFc coreBody6 (by decide) (by decide)
+
+/-- `select any d from instances of DOG where (selected.Age > 3); select many ds from instances of DOG where
+    (selected.Age == param.pi); select any d from instances of DOG where (selected.Alive); delete object instance d; return;` -/
+def coreBody7 : Block :=
+  .cons (.selFromW "any" "d" "DOG" (.bin (.field .selected "Age") ">" (.int "3")))
+  (.cons (.selFromW "many" "ds" "DOG" (.bin (.field .selected "Age") "==" (.param "pi")))
+  (.cons (.selFromW "any" "d" "DOG" (.field .selected "Alive"))
+  (.cons (.delete "d") (.cons (.ret none) .nil))))
+
+example : regenFlat (prebuildFlat flatFc coreBody7) = genTokens coreBody7 :=
+  regen_of_prebuild_partial flatFc coreBody7 (by decide) (by decide)
 
 /-- a TEST of the full statement on one body (if / elif / else, while, for each, select, relate): evaluation, no proof -/
 def flatBody : Block :=
